@@ -322,6 +322,10 @@ def dynamic_part(ck, rng, quick):
                 ck.fail("input", "hang:%s%s" % (kind, ":reent" if "reent=1" in line else ""), "scenario did not finish (deadlock watchdog): `%s`" % line, rep)
         races = tsan_races(err) if variant == "tsan" else []
         for sig, text in races:
+            if sig.endswith(":outside-library"):
+                # both accesses in the harness / simulated HAL (socket hand-over through simhal globals): not library code
+                ck.count("tsan:ignored-outside-library")
+                continue
             nraces += 1
             ck.fail("input", sig, "ThreadSanitizer: %s in scenario `%s`" % (sig, line), dict(rep, tsan_report=text))
         if rc not in (0, 3) and not races and not any(l.startswith("hang") for l in out):
